@@ -1,4 +1,204 @@
-import CV.Model.Core.Machine
+import CV.Proofs.InvWaitMain
+/-
+C06 — call()/wait() resume the caller exactly once with the result, leaving no residue.
+
+PART 1: LOCAL facts, true of EVERY configuration `c` of the small-step core machine (hence of every
+reachable one, for every initial state, tape and program table): for each action of the wait protocol,
+the only step that can perform it and the guard under which it does.  Chained together: the caller of
+`yield call(e)` / `yield wait(e)` is resumed only by the task step of its own waitEvent generator, which is
+registered only by `_on_done` (flag), which fires only on the `_done` child of the event recorded by
+`_on_event`, and `_done` children are fired only by `_eventDone` of that event when `waitingHandlers = 0`.
+
+PART 2: GLOBAL facts about every configuration of an admissible driver session (`W6ReachW`, a sub-relation
+of `Reach`: external `do` operations, like user programs, call `removeHandler` only on pre-declared handlers)
+from an initial state satisfying `W6InitWait`: the invariant `W6CInv`, the phase function, resumption at most
+once, which temporary handlers / tasks can exist in which phase, no residue.
+
+Names: the proof files share namespace `CV.Core` with the other invariants, so their identifiers carry the
+prefix `w6_` / `W6` (wait protocol, C06).
+-/
 namespace CV.C06
-theorem placeholder : True := trivial
+open CV.Core
+
+/-! ## Part 1: local facts (all configurations) -/
+
+/-- The step that logs `.resumed pe ph src v er` is the task step (`ptBody`) of a waitEvent generator
+    `GenRec.wait w` whose state has `event = some src`; its `_done` handler was still installed (could be
+    removed); the parent is the user generator `(pe, ph)`; and the value / error flag handed to the caller are
+    those of the awaited event `src` at that moment (`result_is_callees`: the result is looked up through the
+    wait state's own `event` field, so concurrent calls cannot swap results). -/
+theorem resumed_needs_event (c : Cfg) (es : List Entry) (hes : (step c).st.log = es ++ c.st.log)
+    (pe ph src : Nat) (v : Collapsed) (er : Bool) (hx : Entry.resumed pe ph src v er ∈ es) :
+    ∃ r t k w p o rest st pc sd, c.stack = .ptBody r t :: k ∧ c.exn = none ∧ c.st.gen t.g = .wait w ∧
+      (c.st.wait w).event = some src ∧ t.parent = some p ∧ c.st.gen p = .user pe ph o rest st pc sd ∧
+      (c.st.removeHandler (c.st.wait w).hDone (some ((c.st.wait w).evName.child sfxDone))).1 = true ∧
+      v = (c.st.ev src).val.view ∧ er = (c.st.ev src).val.errors :=
+  w6_resumed_needs_event c hes hx
+
+/-- The step that logs `.timeout …` (TimeoutError thrown into the caller) is the task step of a one-shot
+    generator `GenRec.exc w false`. -/
+theorem timeout_needs_exc (c : Cfg) (es : List Entry) (hes : (step c).st.log = es ++ c.st.log)
+    (pe ph : Nat) (caught : Bool) (hx : Entry.timeout pe ph caught ∈ es) :
+    ∃ r t k w, c.stack = .ptBody r t :: k ∧ c.exn = none ∧ c.st.gen t.g = .exc w false :=
+  w6_timeout_needs_exc c hes hx
+
+/-- `flag` of wait state `w` (the permission to resume) changes only in the step that invokes `w`'s own
+    `_on_done` closure on an event whose parent is the event `w` recorded: results are routed by
+    wait-state identity (`state.event == event.parent`), never by name. -/
+theorem flag_needs_done (c : Cfg) (w : Nat) (hne : ((step c).st.wait w).flag ≠ (c.st.wait w).flag) :
+    ∃ r h e k src, c.stack = .invoke r h e :: k ∧ c.exn = none ∧ (c.st.handler h).kind = .waitDone w ∧
+      (c.st.wait w).event = some src ∧ (c.st.ev e).parentEv = some src ∧ ((step c).st.wait w).flag = true :=
+  w6_flag_needs_done c w hne
+
+/-- `run` / `event` of wait state `w` change only in the step that invokes `w`'s own `_on_event` closure,
+    once (`run` must be false), on the awaited object (or any event of that name for a wait by name). -/
+theorem event_needs_on_event (c : Cfg) (w : Nat)
+    (hne : ((step c).st.wait w).run ≠ (c.st.wait w).run ∨ ((step c).st.wait w).event ≠ (c.st.wait w).event) :
+    ∃ r h e k, c.stack = .invoke r h e :: k ∧ c.exn = none ∧ (c.st.handler h).kind = .waitEvent w ∧
+      (c.st.wait w).run = false ∧ ((c.st.wait w).evObj = none ∨ (c.st.wait w).evObj = some e) ∧
+      ((step c).st.wait w).run = true ∧ ((step c).st.wait w).event = some e :=
+  w6_event_needs_on_event c w hne
+
+/-- A `…_done` child event comes into being only in the step `_eventDone(p)` of its parent, and only when
+    `p.waitingHandlers = 0`: every handler of `p`, suspended ones and their nested calls included, has
+    finished or failed. -/
+theorem done_needs_all_finished (c : Cfg) (e' : Nat) (hge : c.st.evs.length ≤ e')
+    (hd : ((step c).st.ev e').w6_isDoneChild = true) :
+    ∃ r p err k, c.stack = .eventDone r p err :: k ∧ c.exn = none ∧ (c.st.ev p).waiting = 0 ∧
+      (c.st.ev p).alertDone = true ∧ ((step c).st.ev e').parentEv = some p ∧
+      ((step c).st.ev e').name = (c.st.ev p).name.child sfxDone :=
+  w6_done_needs_all_finished c e' hge hd
+
+/-- … and an event never changes its name or parent afterwards. -/
+theorem ev_identity_stable (c : Cfg) (e : Nat) (he : e < c.st.evs.length) :
+    ((step c).st.ev e).parentEv = (c.st.ev e).parentEv ∧ ((step c).st.ev e).name = (c.st.ev e).name :=
+  w6_step_ev_identity c e he
+
+/-- `timeout_not_early`, part 1: the countdown of `w` is touched only by `w`'s own `_on_tick` closure (one
+    invocation per dispatched `generate_events`), only while positive, and by exactly one. -/
+theorem timeout_counts_down (c : Cfg) (w : Nat) (hw : w < c.st.waits.length)
+    (hne : ((step c).st.wait w).timeout ≠ (c.st.wait w).timeout) :
+    ∃ r h e k, c.stack = .invoke r h e :: k ∧ c.exn = none ∧ (c.st.handler h).kind = .waitTick w ∧
+      (c.st.wait w).timeout > 0 ∧ ((step c).st.wait w).timeout = (c.st.wait w).timeout - 1 :=
+  w6_timeout_counts_down c w hw hne
+
+/-- `timeout_not_early`, part 2: the generator that carries `TimeoutError` for `w` is created only by `w`'s
+    own `_on_tick` closure when the countdown is exactly 0 — i.e. not before `n` earlier invocations
+    have counted `n` down. -/
+theorem exc_needs_timeout0 (c : Cfg) (g w : Nat) (b : Bool) (hg : (step c).st.gen g = .exc w b)
+    (hnew : (c.st.gen g).w6_isExc = false) :
+    ∃ r h e k, c.stack = .invoke r h e :: k ∧ c.exn = none ∧ (c.st.handler h).kind = .waitTick w ∧
+      (c.st.wait w).timeout = 0 ∧ b = false ∧ g = c.st.gens.length :=
+  w6_exc_needs_timeout0 c g w b hg hnew
+
+/-- a logged `.resumed` entry is a resumption step (`W6ResumesW`) of the wait state that recorded `src` -/
+theorem resumed_is_resumption (c : Cfg) (es : List Entry) (hes : (step c).st.log = es ++ c.st.log)
+    (pe ph src : Nat) (v : Collapsed) (er : Bool) (hx : Entry.resumed pe ph src v er ∈ es) :
+    ∃ w, W6ResumesW c w ∧ (c.st.wait w).event = some src :=
+  w6_resumed_is_resumption c hes hx
+
+/-! ## Part 2: global facts (admissible sessions) -/
+
+/-- `W6ReachW` is a sub-relation of `Reach`: the same driver sessions, with `removeHandler` in external `do`
+    operations restricted to pre-declared handlers (ids `< s0.hs.length`). -/
+theorem admissible_sessions_are_sessions (s0 : St) (c : Cfg) (h : W6ReachW s0.hs.length s0 c) : Reach s0 c :=
+  h.reach
+
+/-- **wait_inv**: the wait-protocol invariant (`W6CInv` = handler-table invariant `W6HInv` + generator/task
+    invariant `W6GInv` + facts about the frames on the stack and the return register) holds in every
+    configuration of every admissible session from every initial state satisfying `W6InitWait`. -/
+theorem wait_inv (s0 : St) (hi : W6InitWait s0) (c : Cfg) (h : W6ReachW s0.hs.length s0 c) :
+    W6CInv s0.hs.length c :=
+  h.cinv hi
+
+/-- **phase_monotone**: the phase of every wait state (0 not started, 1 started, 2 event seen, 3 done seen,
+    4 finished = resumed or timed out) only grows along `step`. -/
+theorem phase_monotone (s0 : St) (hi : W6InitWait s0) (c : Cfg) (h : W6ReachW s0.hs.length s0 c) (w : Nat) :
+    w6_phase c.st w ≤ w6_phase (step c).st w :=
+  w6_phase_mono (h.cinv hi) w
+
+/-- **resume_moves_phase**: the resumption step of `w` happens in phase 3 (its `flag` is set, its `_done`
+    handler still installed) and leads to phase 4. -/
+theorem resume_moves_phase (s0 : St) (hi : W6InitWait s0) (c : Cfg) (h : W6ReachW s0.hs.length s0 c) (w : Nat)
+    (hr : W6ResumesW c w) : w6_phase c.st w = 3 ∧ w6_phase (step c).st w = 4 :=
+  w6_resume_phase (h.cinv hi) w hr
+
+/-- **resume_at_most_once**: after a resumption step of `w` no later configuration of the session (any number
+    of further steps and external operations) performs a resumption step of `w` again; with
+    `resumed_is_resumption`: at most one `.resumed` entry per wait state. -/
+theorem resume_at_most_once (s0 : St) (hi : W6InitWait s0) (c : Cfg) (h : W6ReachW s0.hs.length s0 c) (w : Nat)
+    (hr : W6ResumesW c w) (c' : Cfg) (hl : W6Later s0.hs.length (step c) c') : ¬ W6ResumesW c' w :=
+  w6_resume_at_most_once (h.cinv hi) w hr hl
+
+/-- **no_resume_after_timeout** (`never both`, one direction): once `w`'s `_on_tick` closure has found the
+    countdown at 0 (the step that registers the `TimeoutError` task), `w` is in phase 4 and no later
+    configuration performs a resumption step of `w`. -/
+theorem no_resume_after_timeout (s0 : St) (hi : W6InitWait s0) (c : Cfg) (h : W6ReachW s0.hs.length s0 c)
+    (w r hh e : Nat) (k : List Frame) (hs : c.stack = .invoke r hh e :: k) (hx : c.exn = none)
+    (hk : (c.st.handler hh).kind = .waitTick w) (h0 : (c.st.wait w).timeout = 0)
+    (c' : Cfg) (hl : W6Later s0.hs.length (step c) c') : ¬ W6ResumesW c' w := by
+  intro hr'
+  have hc := h.cinv hi
+  have h1 := w6_timeout_finishes hc w r hh e k hs hx hk h0
+  have h2 := (w6_resume_phase (W6Later.cinv (w6_step_cinv c hc) hl) w hr').1
+  have := W6Later.w6_phase_mono (w6_step_cinv c hc) hl w
+  omega
+
+/-- **installed_by_phase**: for a started wait state the `_on_event` handler is installed only in phase 1, the
+    `_on_tick` handler only in phases 1–2, the `_on_done` handler exactly in phases 1–3. -/
+theorem installed_by_phase (s0 : St) (hi : W6InitWait s0) (c : Cfg) (h : W6ReachW s0.hs.length s0 c) (w : Nat)
+    (hw : w < c.st.waits.length) (hst : (c.st.wait w).started = true) :
+    (c.st.w6_view.evKey w ∈ c.st.w6_view.htabOf w → w6_phase c.st w = 1) ∧
+    (∀ ht, (c.st.wait w).hTick = some ht → c.st.w6_view.tickKey ht ∈ c.st.w6_view.htabOf w →
+      w6_phase c.st w = 1 ∨ w6_phase c.st w = 2) ∧
+    (c.st.w6_doneInst w ↔ 1 ≤ w6_phase c.st w ∧ w6_phase c.st w ≤ 3) :=
+  w6_installed_by_phase (h.cinv hi) w hw hst
+
+/-- **wait_task_needs_flag**: a task whose generator is `w`'s waitEvent generator is in a task set only when
+    `w.flag` is set, i.e. from phase 3 on. -/
+theorem wait_task_needs_flag (s0 : St) (hi : W6InitWait s0) (c : Cfg) (h : W6ReachW s0.hs.length s0 c)
+    (x : Nat) (t : Task) (ht : t ∈ (c.st.comp x).tasks) (w : Nat) (hg : c.st.gen t.g = .wait w) :
+    (c.st.wait w).flag = true ∧ 3 ≤ w6_phase c.st w :=
+  w6_wait_task_needs_flag (h.cinv hi) x t ht w hg
+
+/-- **no_residue**: in a reachable configuration in which every started wait state is finished (phase 4: resumed
+    or timed out) no handler of kind waitEvent / waitDone / waitTick is left in any handler table. -/
+theorem no_residue (s0 : St) (hi : W6InitWait s0) (c : Cfg) (h : W6ReachW s0.hs.length s0 c)
+    (hall : ∀ w, w < c.st.waits.length → (c.st.wait w).started = true → w6_phase c.st w = 4) :
+    ∀ x k hd, (k, hd) ∈ (c.st.comp x).htab → (c.st.handler hd).kind.w6_isWait = false :=
+  w6_no_residue_of_cinv (h.cinv hi) hall
+
+/-! ## non-vacuity -/
+
+/-- a small initial state: one component, one pre-declared user handler, one program that removes it -/
+def exampleInit : St :=
+  { comps := [{ parent := 0, root := 0 }],
+    hs := [{ owner := 0, names := [⟨1, []⟩], chan := none, kind := .user 0 }],
+    progs := [[.rmH 0 none, .ret 1]] }
+
+example : W6InitWait exampleInit := by
+  refine ⟨rfl, rfl, ?_, ?_, ?_, ?_, ?_⟩
+  · intro h hh
+    have : h = 0 := by simp [exampleInit] at hh; exact hh
+    subst this; rfl
+  · intro c k h hm
+    rcases c with _ | c <;> simp [exampleInit, St.comp, dfltComp] at hm
+  · intro c
+    rcases c with _ | c <;> simp [exampleInit, St.comp, dfltComp]
+  · intro c
+    rcases c with _ | c <;> simp [exampleInit, St.comp, dfltComp]
+  · intro p hp a ha
+    simp [exampleInit] at hp
+    subst hp
+    simp at ha
+    rcases ha with ha | ha <;> subst ha <;> simp [Act.w6_hOk, exampleInit]
+
+/-- admissible sessions exist: e.g. the one that starts with a `tick` -/
+example : W6ReachW exampleInit.hs.length exampleInit (startOf (envChange exampleInit 0 []) (.tick 0)) :=
+  W6ReachW.init 0 [] (.tick 0) trivial
+
+/-- … and `do removeHandler(h)` of the pre-declared handler is an admissible external operation -/
+example : ExtOp.w6ok exampleInit.hs.length (.doAct 0 (.rmH 0 none)) := by
+  simp [ExtOp.w6ok, Act.w6_hOk, exampleInit]
+
 end CV.C06
